@@ -214,7 +214,19 @@ PhSetFull ==   \* FAIL("Maximum number of function pointers installed!") : nothi
     /\ pc' = "phUnwind"
     /\ UNCHANGED <<reg, script, cfg, order, rep, pos, ph, k, setupOk, grpStart, jmp, accFail, accExec, exitv, ptr, table>>
 \* the scripted event of the phase
-FailLine(t, p) == 1000 * t + 10 * p
+\* Where the failing check of phase p of test t stands (the harness places it there): the test itself is at line 1000*t of its own file.
+\*   place 0: in the test's file behind the test's line (the usual case)      -> one location line: the failure's
+\*   place 1: in the test's file before the test's line (a helper function)   -> two: the test's, then the failure's
+\*   place 2: in another file, at a larger line number than the test's        -> two
+\*   place 3: in another file, at a smaller line number than the test's       -> two
+\* In every case the failure is printed once, and the location printed for it is the file and line where it happened.
+FailPlace(t, p) == (t + p) % 4
+FailLine(t, p) == CASE FailPlace(t, p) = 0 -> 1000 * t + 10 * p
+                    [] FailPlace(t, p) = 1 -> 1000 * t - 10 * p
+                    [] FailPlace(t, p) = 2 -> 1000 * t + 10 * p
+                    [] OTHER -> 5 + p
+FailInTestFile(t, p) == FailPlace(t, p) \in {0, 1}
+FailLocLines(t, p) == IF FailPlace(t, p) = 0 THEN 1 ELSE 2
 PhOk ==
     /\ pc = "phSets" /\ k > Len(CurPhase.sets) /\ EvNow(CurPhase) = "ok"
     /\ cnt' = [cnt EXCEPT !.checks = @ + 1]      \* one passing check
@@ -225,7 +237,7 @@ PhOk ==
 PhFailCheck ==   \* a failing check: counted, recorded, printed, then the terminator leaves the phase
     /\ pc = "phSets" /\ k > Len(CurPhase.sets) /\ EvNow(CurPhase) \in {"failCpp", "failC"}
     /\ cnt' = [cnt EXCEPT !.checks = @ + 1, !.failures = @ + 1] /\ hasFailed' = TRUE
-    /\ Emit([op |-> "fail", t |-> Cur, kind |-> "check", line |-> FailLine(Cur, ph)])
+    /\ Emit([op |-> "fail", t |-> Cur, kind |-> "check", line |-> FailLine(Cur, ph), infile |-> FailInTestFile(Cur, ph), nloc |-> FailLocLines(Cur, ph)])
     /\ g' = [g EXCEPT !.failEvents = @ + 1]
     /\ pc' = "phUnwind"
     /\ UNCHANGED <<reg, script, cfg, order, rep, pos, ph, k, setupOk, grpStart, jmp, accFail, accExec, exitv, ptr, table>>
